@@ -803,6 +803,10 @@ static void pmt_check_sound(PMT t, const std::vector<uint256>& txids, const uint
         if (idx[i] >= txids.size() || txids[idx[i]] != m[i].ToUint256()) bad = true;
         if (i && idx[i] <= idx[i - 1]) bad = true;
     }
+    if (must_reject) {
+        vx::violation("pmt-malformed-accepted-" + what, "malformed partial merkle tree (" + what + ": damaged/missing/excess hashes or excess flag bytes) is accepted and authenticates to the block's merkle root: " + id, "part pmt\n" + id + "\ntamper " + what);
+        return;
+    }
     if (bad) vx::violation("pmt-forged-" + what, "tampered partial merkle tree (" + what + ") authenticates to the block's merkle root with matches that are not (txid, position) pairs of the block: " + id, "part pmt\n" + id + "\ntamper " + what);
 }
 
